@@ -134,3 +134,10 @@ Definition session_from (thr tol : Qc) (ms : list (smod Qc)) (adj : list (list (
   | Ok s => session_ok thr tol s steps
   | _ => match steps with (_, _, _, _, None) :: _ => true | _ => false end
   end.
+
+(* spectral_layout_die raised before its first normalize call: the model must not return either *)
+Definition die_fails (thr W H : Qc) (radius : list Qc) (fx : list bool) (inix iniy : list Qc) (t : trial_rec) : bool :=
+  match layout_die thr (rnd_of [t] (W * half) (H * half)) (produce_of [t]) (niter_of [t]) 0 W H radius fx inix iniy with
+  | Ok _ => false
+  | _ => true
+  end.
